@@ -394,7 +394,7 @@ def subst_side(s, c, tok):
 def subst_item(it, c, tok):
     k = it[0]
     if k == "qty":
-        return ("qty", subst_pieces(it[1], c, tok), subst_pieces(it[2], c, tok))
+        return ("qty", subst_pieces(it[1], c, tok), subst_pieces(it[2], c, tok)) + tuple(it[3:])
     if k == "log":
         return ("log", subst_pieces(it[1], c, tok))
     if k == "eqn":
@@ -623,9 +623,17 @@ class ModelGen(Gen):
                 return [("if", cd, nodes, None)], val, cd
             return nodes, True, None
 
+        tagged = {}
+
+        def maybe_tag(kind):
+            return r.choice(["g1", "lg", "G_2"]) if (kind in ("TV", "MV", "EX") and r.random() < 0.2) else None
+
         def add_plain(kind, first=False):
             n = self.fresh()
-            nodes, alive, cd = conditional([("item", ("qty", self.descr(), lit(n)))], kind, first)
+            tag = maybe_tag(kind)
+            nodes, alive, cd = conditional([("item", ("qty", self.descr(), lit(n), tag))], kind, first)
+            if alive and tag:
+                tagged.setdefault(tag, []).append(n)
             decl[kind] += nodes
             if alive:
                 live.append((lit(n), kind))
@@ -636,11 +644,15 @@ class ModelGen(Gen):
             fam = self.family(kind, nested=(kind in ("TV", "P") and r.random() < 0.2))
             self.fams.append(fam)
 
+            tag = maybe_tag(kind)
+
             def inner(ctl, ctl2):
                 ps = self.fam_pieces(fam, ctl, ctl2)
                 dp = self.descr([("ctl", ctl, "plain")])
-                return [("item", ("qty", dp, ps))]
+                return [("item", ("qty", dp, ps, tag))]
             nodes, alive, cd = conditional(self.wrap_loops(fam, inner), kind)
+            if alive and tag:
+                tagged.setdefault(tag, []).extend(fam["names"])
             decl[kind] += nodes
             fam["live"] = alive
             if alive:
@@ -712,6 +724,9 @@ class ModelGen(Gen):
                 chosen = [n for n in chosen if n not in f["names"]]
                 log_nodes += self.wrap_loops(f, lambda ctl, ctl2, f=f: [("item", ("log", self.fam_pieces(f, ctl)))])
             log_nodes += [("item", ("log", lit(n))) for n in chosen]
+            for tag in tagged:
+                if r.random() < 0.7:
+                    log_nodes.append(("item", ("loglist", tag)))
             r.shuffle(log_nodes)
 
         # layout
@@ -947,7 +962,10 @@ class Render:
         if k == "kw":
             return "\n" + self.kw(it) + self.r.choice(["\n", "\n  ", " "])
         if k == "qty":
-            return self.descr(it[1]) + self.pieces(it[2]) + r.choice([",", ", ", ";", "\n", " ", " ,\n"]) + self.gap()
+            tag = ("`" + it[3]) if len(it) > 3 and it[3] else ""
+            return self.descr(it[1]) + self.pieces(it[2]) + tag + r.choice([",", ", ", ";", "\n", " ", " ,\n"]) + self.gap()
+        if k == "loglist":
+            return "!list(`" + it[1] + ")" + r.choice([",", ", ", "\n", " "]) + self.gap()
         if k == "log":
             return self.pieces(it[1]) + r.choice([",", ", ", "\n", " ", ";"]) + self.gap()
         if k == "eqn":
@@ -1123,7 +1141,10 @@ def cq_item(it):
             return f"(IKeyword (BLog {coq_bool(x)} {sp}))"
         return f"(IKeyword (BSubs {sp}))"
     if k == "qty":
-        return f"(IQty {cq_pieces(it[1])} {cq_pieces(it[2])})"
+        tag = f"(Some {cq_s(it[3])})" if len(it) > 3 and it[3] else "None"
+        return f"(IQty {cq_pieces(it[1])} {cq_pieces(it[2])} {tag})"
+    if k == "loglist":
+        return f"(ILogList {cq_s(it[1])})"
     if k == "log":
         return f"(ILog {cq_pieces(it[1])})"
     if k == "eqn":
@@ -1595,6 +1616,10 @@ def reference_model(model):
     items = py_resolve(model["nodes"], ctx)
     block = None
     decl, logs, allbut, eqs, subs = [], [], [], [], {}
+    tags = {}
+    for it in items:
+        if it[0] == "qty" and len(it) > 3 and it[3]:
+            tags.setdefault(it[3], []).append(close(it[2]))
     for it in items:
         if it[0] == "kw":
             block = (it[1], it[2])
@@ -1604,6 +1629,8 @@ def reference_model(model):
             decl.append((close(it[2]), block[1], close(it[1]).strip()))
         elif it[0] == "log":
             logs.append(close(it[1]))
+        elif it[0] == "loglist":
+            logs += tags.get(it[1], [])
         elif it[0] == "subs":
             subs[it[1]] = it[3]
         elif it[0] == "eqn":
